@@ -187,6 +187,11 @@ def finish(prop, known, new, extra_violation_lines=()):
             continue
         seen.add(key)
         print(f"KNOWN-FINDING: property={prop} {g['kind']} [{k.get('shape') or '+'.join(k['shapes'])}] {k['what']}")
+    # --replay <file>: only the violation recorded in that file counts (the whole check is re-run from the current tree)
+    want = os.environ.get("VERIF_REPLAY_SIGNATURE")
+    if want:
+        new = [(g, k) for g, k in new if g["signature"] == want]
+        extra_violation_lines = [l for l in extra_violation_lines if want in l]
     code = 0
     # every new group gets a replay file; the console shows the 12 largest groups and a count of the rest
     ranked = sorted(new, key=lambda gk: -gk[0]["count"])
